@@ -65,6 +65,7 @@ func init() {
 	reg("C11", "exploration", false, 100000, 30, 3000000, 240, 3)
 	reg("C13", "fault_enumeration", false, 60000, 30, 2000000, 240, 3)
 	reg("C05", "exploration", false, 100000, 30, 3000000, 240, 3)
+	reg("C06", "exploration", false, 40000, 40, 1000000, 240, 3)
 	reg("C04", "exploration", false, 100000, 30, 4000000, 240, 3)
 }
 
@@ -501,7 +502,7 @@ func propMeta(bin, id string) meta {
 func replayOnce(bin, id, path, workDir string) (string, bool) {
 	cmd := exec.Command(bin, "-test.run", "TestWorker", "-test.timeout", "120s")
 	raceLog := filepath.Join(workDir, fmt.Sprintf("racereplay-%d", time.Now().UnixNano()))
-	cmd.Env = append(os.Environ(), "ZSIM_PROP="+id, "ZSIM_REPLAY="+path, "GOMAXPROCS=1", "ZSIM_KNOWN_FILE="+filepath.Join(verifDir, "known_findings.json"), "GORACE=log_path="+raceLog+" halt_on_error=1 exitcode=66")
+	cmd.Env = append(os.Environ(), "ZSIM_PROP="+id, "ZSIM_REPLAY="+path, "GOMAXPROCS=1", "ZSIM_TMP="+workDir, "ZSIM_KNOWN_FILE="+filepath.Join(verifDir, "known_findings.json"), "GORACE=log_path="+raceLog+" halt_on_error=1 exitcode=66")
 	var out bytes.Buffer
 	cmd.Stdout, cmd.Stderr = &out, &out
 	err := cmd.Run()
@@ -603,6 +604,7 @@ func runBase(bin, id, tier string, base uint64, tc tierCfg, nw int, workDir stri
 					"ZSIM_BUDGET_MS="+strconv.FormatInt(remain.Milliseconds(), 10),
 					"ZSIM_OUT="+outPath, "GOMAXPROCS=1",
 					"ZSIM_KNOWN_FILE="+filepath.Join(verifDir, "known_findings.json"),
+					"ZSIM_TMP="+workDir,
 				)
 				progPath := outPath + ".progress"
 				if race {
